@@ -206,7 +206,7 @@ def _fftfreq_cases(ctx):
 def check(ctx: vlib.Ctx) -> int:
     sc.quiet()
     rng = random.Random(ctx.seed)
-    ok = vlib.prove(ctx, ["Proofs/C16.vo", "Model/Samples.vo"], gens=["Gen_spectrum"])
+    ok = vlib.prove(ctx, ["Proofs/C16.vo", "Proofs/SpectrumDFTSmall.vo", "Model/Samples.vo"], gens=["Gen_spectrum"])
     ctx.tie.append("translator (Gen_spectrum regenerated from /repo: norm keyword, .flat slices, normalisation, "
                    "wave-number lines, control flow of get_structure_factor) + correspondence on get_structure_factor")
     py, consts = sc.load_models(ctx)
